@@ -227,6 +227,8 @@ def main():
         if v.get('site') in seen_sites:
             continue
         seen_sites.add(v.get('site'))
+        if n_viol >= 25:
+            continue        # a defect in shared plumbing shows at every class: 25 replay files say enough (all sites are in the evidence)
         path = write_replay(prop, {'property': prop, 'search_module': cfg['search'], 'case': v,
                                    'broken': broken[:5], 'how_to_replay': './check %s --replay <this file>' % prop})
         lines.append('VIOLATION property=%s replay=%s' % (prop, path))
